@@ -1526,7 +1526,43 @@ def run_overloads(ck):
             bad.append((i, "value=%s expected %s" % (d.get("value"), want)))
         else:
             ck.traces_validated += 1
+    # parallel_scan (body / functional form x default, simple, auto) and parallel_sort (iterator / range form x with / without comparator)
+    l2, m2 = [], []
+    for n in ([1, 2, 7, 64, 257, 1000] if quick else [0, 1, 2, 3, 7, 64, 100, 257, 1000, 3000]):
+        for g in ([1, 16] if quick else [1, 3, 16, 100]):
+            for ov in range(6):
+                for T in ([1, 4] if quick else [1, 2, 4, 8]):
+                    l2.append("scanov %d %d %d %d %d %d" % (ov, n, g, T, rng.randrange(1 << 30), rng.choice([0, 30, 100])))
+                    m2.append(("scan", ov, n, g, T))
+    for n in ([0, 1, 2, 9, 499, 500, 501, 2048] if quick else [0, 1, 2, 3, 9, 100, 499, 500, 501, 777, 2048, 10000]):
+        for cls in range(3):
+            keys = list(range(n)) if cls == 0 else [rng.randrange(max(1, n // 3 + 1)) for _ in range(n)] if cls == 1 else \
+                [i if i != min(7, n - 1) else 0 for i in range(n)]
+            for ov in range(4):
+                for T in ([1, 4] if quick else [1, 2, 4, 8]):
+                    l2.append("sortov %d %d %d %s" % (ov, T, n, " ".join(map(str, keys))))
+                    m2.append(("sort", ov, n, cls, T))
+    o2, cr2 = run_lines(ck.exe_real, l2, timeout=1800)
+    not_run(ck, "scan / sort overloads", o2, cr2, l2)
+    bad2 = []
+    for i, (m, o) in enumerate(zip(m2, o2)):
+        if o == SKIPPED:
+            continue
+        d = parse_kv(o) if o else {}
+        ck.count(1, ("ov",) + m[:2] + (min(m[2], 64),) + m[3:])
+        good = (d.get("ok") == "1" and d.get("total_ok") == "1") if m[0] == "scan" else (d.get("sorted") == "1" and d.get("perm") == "1")
+        if not good:
+            bad2.append((i, o))
+        else:
+            ck.traces_validated += 1
+    ck.oblige("monitor:all 6 parallel_scan overloads give every element the in-order prefix and return the full reduction; all 4 parallel_sort "
+              "overloads leave a sorted permutation", "correspondence", not bad2 and not cr2, "" if not bad2 else "%s: %s" % (l2[bad2[0][0]][:200], bad2[0][1]))
+    if bad2:
+        i, o = bad2[0]
+        ck.counterexample("%s:overload-%d:n=%d" % (m2[i][0], m2[i][1], m2[i][2]), "%s overload %d: %s (scenario `%s`)" % (m2[i][0], m2[i][1], o, l2[i][:300]),
+                          {"engine": "E-REAL", "harness": H + "real.cpp", "stdin": l2[i], "repeat": 20, "monitor": "overload-ok", "observed": o})
     ck.extra["reduce_overload_runs"] = len(lines)
+    ck.extra["scan_sort_overload_runs"] = len(l2)
     ck.oblige("monitor:all 20 parallel_reduce overloads (body/functional x 5 partitioner choices x context) return the in-order fold (free monoid)",
               "correspondence", not bad and not crashes, "" if not bad else "%s: %s" % (lines[bad[0][0]], bad[0][1]))
     if bad:
@@ -1635,6 +1671,14 @@ def replay(ck, obj):
         outs, cr = run_lines(exe, [line] * r.get("repeat", 5), timeout=300)
         bad = [o for o in outs if o is None or not det_in_order(o.split(" term=", 1)[-1], r["n"])]
         print("replay of %s: `%s`: %d runs with operands out of order%s" % (obj.get("key"), line, len(bad), (": " + str(bad[0])[:200]) if bad else ""))
+        return 1 if bad else 0
+    if r.get("monitor") == "overload-ok":
+        outs, cr = run_lines(exe, [line] * r.get("repeat", 20), timeout=900)
+        def good(o):
+            d = parse_kv(o) if o else {}
+            return (d.get("ok") == "1" and d.get("total_ok") == "1") or (d.get("sorted") == "1" and d.get("perm") == "1")
+        bad = [o for o in outs if not good(o)]
+        print("replay of %s: `%s`: %d failing runs%s" % (obj.get("key"), line[:120], len(bad), (": " + str(bad[0])[:200]) if bad else ""))
         return 1 if bad else 0
     if r.get("monitor") == "no-crash":
         outs, cr = run_lines(exe, [line], timeout=300)
